@@ -32,7 +32,7 @@ MIN_EVAL = {"quick": {"faces_equal": 900, "standard_form": 900, "lon_lat_range":
 
 def cases(tier, seed):
     rng = np.random.default_rng([seed, 101])
-    n = 1200 if tier == "quick" else 12000
+    n = 1200 if tier == "quick" else 80000
     maxf = 60 if tier == "quick" else 500
     for i in range(n):
         kind = KINDS[i % len(KINDS)]
